@@ -4,6 +4,7 @@ import (
 	"errors"
 	"strconv"
 
+	"go.pennock.tech/tabular"
 	"go.pennock.tech/tabular/properties"
 )
 
@@ -658,4 +659,45 @@ func VerifC07_floats() {
 		}
 	}
 	vfObserveStr("out", out)
+}
+
+type vfSkipSetter struct{ v interface{} }
+
+func (cb vfSkipSetter) UpdateProperties(po tabular.PropertyOwner) error {
+	return po.SetProperty(properties.Skipable, cb.v)
+}
+
+// VerifC07_rendertime: column settings made by the table's own render-time callbacks (which run as
+// part of every render) count for that very render: empty cells of a column marked skipable by such a
+// callback are omitted the first time already, a non-boolean setting is refused, and a second render
+// gives the same text.
+func VerifC07_rendertime() {
+	t := New()
+	t.AddHeaders("id", "note")
+	t.AddRowItems(1, "")
+	t.AddRowItems(2, "x")
+	col := []int{0, 2}[vfChoice("column", 2)]
+	var v interface{} = true
+	bad := vfChoice("value", 2) == 1
+	if bad {
+		v = "yes" // not a boolean
+	}
+	vfAssert(t.RegisterPropertyCallback(t.Column(col), tabular.CB_AT_RENDER_PRECELL, tabular.CB_ON_ITSELF, vfSkipSetter{v}) == nil, "register-ok")
+	out1, err1 := t.Render()
+	out2, err2 := t.Render()
+	vfAssert((err1 == nil) == (err2 == nil), "second-render-same")
+	vfAssert(out1 == out2, "second-render-same")
+	if bad {
+		vfAssert(vfAnd(err1 != nil, out1 == ""), "non-boolean-skipable-is-an-error")
+		return
+	}
+	vfAssert(err1 == nil, "render-ok")
+	objs, ok := vfParseArray(out1)
+	vfAssert(ok, "valid-json")
+	vfAssert(vfOr(!ok, len(objs) == 2), "one-object-per-row")
+	if ok && len(objs) == 2 {
+		vfAssert(len(objs[0].vals) == 1, "empty-cell-of-skipable-column-omitted")
+		vfAssert(len(objs[1].vals) == 2, "one-member-per-cell")
+	}
+	vfObserveStr("out", out1)
 }
